@@ -561,8 +561,11 @@ class SparselyBin(Factory, Container):
             if isinstance(json["bins"], dict):
                 for i in json["bins"]:
                     try:
-                        int(i)
+                        canonical = str(int(i)) == i
                     except ValueError:
+                        canonical = False
+                    if not canonical:
+                        # "03", " 3" and "+3" would all be read as bin 3 and silently replace one another
                         raise JsonFormatException(i, "SparselyBin.bins key must be an integer")
 
                 bins = {int(i): binsFactory.fromJsonFragment(v, binsName) for i, v in json["bins"].items()}
